@@ -319,11 +319,90 @@ def extract_formatter(X):
     X.data["join_keywords"] = sorted(K.join_keywords)
 
 
+HAND_OPS = [
+    # JSON name, kind, key of the parser's operator row, text of the fixed right operand (binA)
+    ("not", "pre", "not", ""), ("binary_not", "pre", "u~", ""),
+    ("missing", "binA", "is", "NULL"), ("exists", "binA", "is not", "NULL"),
+    ("in", "binA", "in", "( x )"), ("nin", "binA", "not in", "( x )"),
+    ("regexp", "bin", "regexp", ""), ("not_regexp", "bin", "not regexp", ""),
+    ("between", "tern", "between", ""), ("not_between", "tern", "not between", ""),
+]
+
+
+def measure_renderers(X):
+    """what every expression renderer of the formatter does with precedence, MEASURED on the real Formatter:
+    selfMin = the least 2*prec at which it writes itself without parentheses; s0.. = 2*prec each operand is
+    dispatched with (recorded by a subclass that overrides dispatch)"""
+    from mo_sql_parsing import formatting as F
+
+    class Rec(F.Formatter):
+        def __init__(self):
+            super().__init__()
+            self.seen = {}
+
+        def dispatch(self, json, prec=100):
+            if isinstance(json, str) and json in ("x1", "x2", "x3"):
+                self.seen.setdefault(json, prec)
+            return super().dispatch(json, prec)
+
+    def wrapped(text):
+        if not (text.startswith("(") and text.endswith(")")):
+            return False
+        depth = 0
+        for i, ch in enumerate(text):
+            if ch == "(":
+                depth += 1
+            elif ch == ")":
+                depth -= 1
+                if depth == 0 and i != len(text) - 1:
+                    return False
+        return True
+
+    rows = []
+    oper = [(o["name"], "bin", o["key"], "") for o in X.data.get("fmt_ops", []) if o.get("key")]
+    for name, kind, key, atom in oper + HAND_OPS:
+        meth = getattr(F.Formatter, "_" + name, None)
+        if meth is None:
+            X.problem("formatter", "renderer _%s is gone" % name)
+            continue
+        value = {"pre": "x1", "binA": "x1", "bin": ["x1", "x2"], "tern": ["x1", "x2", "x3"]}[kind]
+        if name in ("in", "nin"):
+            value = ["x1", ["x2", "x3"]]
+        bare_at = []
+        slots = None
+        ok = True
+        for p2 in range(-6, 61):
+            r = Rec()
+            try:
+                text = getattr(r, "_" + name)(value, p2 / 2.0)
+            except Exception as e:
+                X.problem("formatter", "renderer _%s raised %s at prec %s" % (name, type(e).__name__, p2 / 2.0))
+                ok = False
+                break
+            bare_at.append((p2, not wrapped(text)))
+            sl = [int(round(2 * r.seen.get(k, 100))) for k in ("x1", "x2", "x3")]
+            if slots is None:
+                slots = sl
+            elif slots != sl:
+                X.problem("formatter", "renderer _%s dispatches its operands differently depending on prec" % name)
+        if not ok:
+            continue
+        first_bare = next((p2 for p2, b in bare_at if b), None)
+        if first_bare is None:
+            first_bare = 1000
+        if any(b != (p2 >= first_bare) for p2, b in bare_at):
+            X.problem("formatter", "renderer _%s: parenthesisation is not monotone in prec" % name)
+        n = {"pre": 1, "binA": 1, "bin": 2, "tern": 3}[kind]
+        rows.append({"name": name, "kind": kind, "selfMin": first_bare if first_bare > -6 else -1000, "slots": slots[:n], "key": key, "atom": atom})
+    X.data["all_ops"] = rows
+
+
 def gen_fmt_lean(X):
     ops = [o for o in X.data.get("fmt_ops", []) if o["key"] is not None]
     known = [f for f in load_known() if f["property"] == "C04" and f["key"].startswith("fmt-triple:")]
     lines = [
         "import MoSql.Format",
+        "import MoSql.Format2",
         "import MoSql.Gen.Levels",
         "/- GENERATED by tools/extract.py from /repo's working tree — do not edit. -/",
         "namespace MoSql.Gen",
@@ -348,6 +427,18 @@ def gen_fmt_lean(X):
         o, s_, c = f["key"][len("fmt-triple:"):].split(",")
         ks.append("  (%s, %s, %s)" % (lean_str(o), s_, lean_str(c)))
     lines.append(",\n".join(ks))
+    lines.append("]")
+    lines.append("")
+    lines.append("/-- every expression renderer (Operator-built and hand-written) with what it does with precedence, MEASURED on")
+    lines.append("    the real Formatter: least 2·prec at which it writes itself bare, and 2·prec each operand is dispatched with -/")
+    lines.append("def allOps : List HOp := [")
+    rows = []
+    for o in X.data.get("all_ops", []):
+        sl = o["slots"] + [0, 0, 0]
+        rows.append("  { name := %s, kind := .%s, selfMin := %d, s0 := %d, s1 := %d, s2 := %d, info := opInfo %s, atomText := %s, flat := %s }" % (
+            lean_str(o["name"]), o["kind"], o["selfMin"], sl[0], sl[1], sl[2], lean_str(o["key"]), lean_str(o["atom"]),
+            "true" if o["name"] in (X.data.get("assoc") or []) else "false"))
+    lines.append(",\n".join(rows))
     lines.append("]")
     lines.append("")
     lines.append("end MoSql.Gen")
@@ -636,6 +727,7 @@ def main():
                 X.problem("build", "%s(%r) raised %r" % (name, ac, e))
     extract_levels(X, rec)
     extract_formatter(X)
+    measure_renderers(X)
     extract_lexemes(X)
     extract_graph(X, builds)
     extract_effects.extract(X, REPO)
